@@ -47,21 +47,23 @@ func RandValue(r *rand.Rand, t *Target, pool []string) uint64 {
 
 // MixedParams steers GenMixed.
 type MixedParams struct {
-	MaxGroups       int
-	MaxNames        int // small name lists: 0..MaxNames
-	BigNamesChance  int // 1/n chance of a large unconditional list (0 = never)
-	MaxCondEntries  int
-	MaxLists        int
-	LongListChance  int // 1/n chance that an entry gets 10..30 lists
-	MaxConds        int
-	PoolSize        int // size of the small name pool (repeats across groups come from here)
-	Actions         []seccomp.Action
-	Defaults        []seccomp.Action
-	DistinctDefault bool
+	MaxGroups      int
+	MaxNames       int // small name lists: 0..MaxNames
+	BigNamesChance int // 1/n chance of a large unconditional list (0 = never)
+	MaxCondEntries int
+	MaxLists       int
+	LongListChance int // 1/n chance that an entry gets 10..30 lists
+	// VeryLongListChance: 1/n chance that a list gets 9..78 conditions
+	VeryLongListChance int
+	MaxConds           int
+	PoolSize           int // size of the small name pool (repeats across groups come from here)
+	Actions            []seccomp.Action
+	Defaults           []seccomp.Action
+	DistinctDefault    bool
 }
 
 func DefaultMixed() MixedParams {
-	return MixedParams{MaxGroups: 6, MaxNames: 10, BigNamesChance: 6, MaxCondEntries: 6, MaxLists: 4, LongListChance: 6,
+	return MixedParams{MaxGroups: 6, MaxNames: 10, BigNamesChance: 6, MaxCondEntries: 6, MaxLists: 4, LongListChance: 6, VeryLongListChance: 40,
 		MaxConds: 8, PoolSize: 24, Actions: NamedActions, Defaults: NamedActions}
 }
 
@@ -109,8 +111,12 @@ func GenMixed(r *rand.Rand, t *Target, mp MixedParams) *seccomp.Policy {
 				nl = 10 + r.Intn(21)
 			}
 			for l := 0; l < nl; l++ {
+				nconds := 1 + r.Intn(mp.MaxConds)
+				if mp.VeryLongListChance > 0 && r.Intn(mp.VeryLongListChance) == 0 {
+					nconds = 9 + r.Intn(70) // one list alone spans more than 255 instructions
+				}
 				grp.NamesWithCondtions = append(grp.NamesWithCondtions,
-					seccomp.NameWithConditions{Name: n, Conditions: GenConds(r, t, pool, 1+r.Intn(mp.MaxConds))})
+					seccomp.NameWithConditions{Name: n, Conditions: GenConds(r, t, pool, nconds)})
 			}
 		}
 		// Interleave the entries of different syscalls: same-name entries need
@@ -161,6 +167,23 @@ func GenNamesOnly(r *rand.Rand, t *Target, mode int, actions, defaults []seccomp
 		sort.Ints(cuts)
 		for i := 0; i+1 < len(cuts); i++ {
 			p.Syscalls = append(p.Syscalls, seccomp.SyscallGroup{Names: append([]string{}, names[cuts[i]:cuts[i+1]]...), Action: actions[r.Intn(len(actions))]})
+		}
+	case 3: // many small groups (9..150), names overlapping between groups
+		ng := 9 + r.Intn(142)
+		pool := names
+		r.Shuffle(len(pool), func(i, j int) { pool[i], pool[j] = pool[j], pool[i] })
+		pool = pool[:5+r.Intn(60)]
+		for g := 0; g < ng; g++ {
+			var ns []string
+			seen := map[string]bool{}
+			for k := 0; k < r.Intn(4); k++ {
+				n := pool[r.Intn(len(pool))]
+				if !seen[n] {
+					seen[n] = true
+					ns = append(ns, n)
+				}
+			}
+			p.Syscalls = append(p.Syscalls, seccomp.SyscallGroup{Names: ns, Action: actions[r.Intn(len(actions))]})
 		}
 	default:
 		sizes := NamesOnlySizes(len(names))
